@@ -173,7 +173,7 @@ PROPS = {
         "assumptions": [],
     },
     "C08": {
-        "lean_modules": ["StimModel.Props.C08", "StimModel.Props.C08b"],
+        "lean_modules": ["StimModel.Props.C08", "StimModel.Props.C08b", "StimModel.Props.C08c"],
         "builds": ["asan"],
         "areas": [
             {"area": "dem", "n": {"quick": 1500, "thorough": 30000}, "builds": ["asan"], "replayable": True},
